@@ -267,12 +267,12 @@ Section Proofs.
   Lemma insert_good s i x l' :
     Inv s -> (forall l, Permutation (l' l) (x :: l)) ->
     let '(r, s') := insert key keqb valid s i x in
-    (r, lst s') = (match admit key keqb valid (lst s) x with
+    (r, lst s') = (match may_add key keqb valid (lst s) x with
                    | Err e => (Err e, lst s)
                    | Ok _ => (Ok RNone, insert_at (clamp_index (zlen (lst s)) i) x (lst s)) end)
     /\ Inv s' /\ (forall e, r = Err e -> s' = s).
   Proof.
-    intros I _. unfold insert, validate_item, admit.
+    intros I _. unfold insert, validate_item, may_add.
     destruct (valid x); [|cbv beta iota zeta; same].
     rewrite (inv_mem s _ I). destruct (has_key (key x) (lst s)) eqn:Hk; cbv beta iota zeta.
     - same.
@@ -445,14 +445,14 @@ Section Proofs.
   (* ---------------- extend ---------------- *)
   Lemma extend_stage_spec s : Inv s -> forall xs prev,
     extend_stage key keqb valid s xs (pairs prev) =
-      match admit_all key keqb valid (lst s ++ prev) xs with
+      match may_add_all key keqb valid (lst s ++ prev) xs with
       | Err e => Err e
       | Ok _ => Ok (pairs (prev ++ xs))
       end.
   Proof.
     intros I xs. induction xs as [|x xs IH]; intro prev; simpl.
     - now rewrite app_nil_r.
-    - unfold validate_item, admit. destruct (valid x); auto.
+    - unfold validate_item, may_add. destruct (valid x); auto.
       rewrite (inv_mem s _ I), dict_mem_pairs, has_key_app.
       destruct (has_key (key x) (lst s) || has_key (key x) prev) eqn:E; auto.
       rewrite dict_set_fresh.
@@ -460,13 +460,13 @@ Section Proofs.
       rewrite <- pairs_snoc, IH, <- !app_assoc. reflexivity.
   Qed.
 
-  Lemma admit_all_ok xs : forall l l',
-    admit_all key keqb valid l xs = Ok l' ->
+  Lemma may_add_all_ok xs : forall l l',
+    may_add_all key keqb valid l xs = Ok l' ->
     l' = l ++ xs /\ (NoDup (map key l) -> NoDup (map key l')).
   Proof.
     induction xs as [|x xs IH]; intros l l' H; simpl in H.
     - inversion H; subst. rewrite app_nil_r. auto.
-    - unfold admit in H. destruct (valid x); [|discriminate].
+    - unfold may_add in H. destruct (valid x); [|discriminate].
       destruct (has_key (key x) l) eqn:Hk; [discriminate|].
       apply IH in H. destruct H as [-> H]. rewrite <- app_assoc in *. split; auto.
       intro N. apply H. rewrite map_app. simpl.
@@ -524,15 +524,15 @@ Section Proofs.
   Lemma extend_good s xs :
     Inv s ->
     let '(r, s') := extend key keqb valid s xs in
-    (r, lst s') = (match admit_all key keqb valid (lst s) xs with
+    (r, lst s') = (match may_add_all key keqb valid (lst s) xs with
                    | Err e => (Err e, lst s)
                    | Ok l' => (Ok RNone, l') end)
     /\ Inv s' /\ (forall e, r = Err e -> s' = s).
   Proof.
     intro I. unfold extend.
     pose proof (extend_stage_spec s I xs []) as E. simpl in E. rewrite app_nil_r in E.
-    rewrite E. destruct (admit_all key keqb valid (lst s) xs) as [l'|e] eqn:A; [|same].
-    apply admit_all_ok in A. destruct A as [-> N].
+    rewrite E. destruct (may_add_all key keqb valid (lst s) xs) as [l'|e] eqn:A; [|same].
+    apply may_add_all_ok in A. destruct A as [-> N].
     destruct I as (N1 & N2 & H).
     rewrite map_map. simpl. rewrite map_id. split3.
     rewrite dict_update_fresh.
@@ -686,7 +686,7 @@ Section Proofs.
     - (* OInsert *)
       pose proof (insert_good s i x (fun l => x :: l) I (fun l => Permutation_refl _)) as G.
       rewrite Es in G. apply lift3 in G.
-      + destruct (admit key keqb valid (lst s) x); rewrite Esp in G; exact G.
+      + destruct (may_add key keqb valid (lst s) x); rewrite Esp in G; exact G.
       + intros n E. subst. eapply insert_no_new; eauto.
     - (* OAppend *)
       pose proof (insert_good s (zlen (lst s)) x (fun l => x :: l) I (fun l => Permutation_refl _)) as G.
@@ -696,19 +696,19 @@ Section Proofs.
           destruct (Z.of_nat (length (lst s)) <? 0) eqn:E; [lia|].
           rewrite Z.min_id, Nat2Z.id, firstn_all, skipn_all. reflexivity. }
         rewrite C in G.
-        destruct (admit key keqb valid (lst s) x); rewrite Esp in G; exact G.
+        destruct (may_add key keqb valid (lst s) x); rewrite Esp in G; exact G.
       + intros n E. subst. eapply insert_no_new; eauto.
     - (* OExtend *)
       pose proof (extend_good s xs I) as G. rewrite Es in G. apply lift3 in G.
-      + destruct (admit_all key keqb valid (lst s) xs); rewrite Esp in G; exact G.
+      + destruct (may_add_all key keqb valid (lst s) xs); rewrite Esp in G; exact G.
       + intros n E. subst. eapply extend_no_new; eauto.
     - (* OExtendSelf *)
       pose proof (extend_good s (lst s) I) as G. rewrite Es in G. apply lift3 in G.
-      + destruct (admit_all key keqb valid (lst s) (lst s)); rewrite Esp in G; exact G.
+      + destruct (may_add_all key keqb valid (lst s) (lst s)); rewrite Esp in G; exact G.
       + intros n E. subst. eapply extend_no_new; eauto.
     - (* OIAdd *)
       pose proof (extend_good s xs I) as G. rewrite Es in G. apply lift3 in G.
-      + destruct (admit_all key keqb valid (lst s) xs); rewrite Esp in G; exact G.
+      + destruct (may_add_all key keqb valid (lst s) xs); rewrite Esp in G; exact G.
       + intros n E. subst. eapply extend_no_new; eauto.
     - (* OPop *)
       pose proof (pop_good s i I) as G. rewrite Es in G. cbv zeta in G. apply lift3 in G.
